@@ -122,7 +122,16 @@ type request struct {
 	ECtor     bool        `json:"ector"` // build the subscriber with New<Scope>ErrorableSubscriber
 }
 
+// a Results value a middleware kept after its invocation returned, with what it held then
+type kept struct {
+	res  frugal.Results
+	dump []interface{}
+}
+
 type exp struct {
+	retained []kept
+	inplace  bool // some middleware of this request rewrites Results in place: nothing is kept then
+	extra    bool // the extra call after the scripted ones: the handler returns the zero value
 	built  map[string]interface{}
 	reg    *labdriver.Registry
 	names  map[reflect.Type]string
@@ -420,6 +429,9 @@ func (e *exp) middleware(spec mwSpec, argTypes, resTypes []reflect.Type) (frugal
 		return nil, fmt.Errorf("middleware %d post: %v", spec.ID, err)
 	}
 	id := spec.ID
+	if spec.InPlace {
+		e.inplace = true
+	}
 	vals := func(rws []rewrite) []interface{} {
 		out := []interface{}{}
 		for _, r := range rws {
@@ -433,7 +445,13 @@ func (e *exp) middleware(spec mwSpec, argTypes, resTypes []reflect.Type) (frugal
 		return func(svc reflect.Value, method reflect.Method, args frugal.Arguments) frugal.Results {
 			e.events = append(e.events, []interface{}{"enter", id, method.Name, e.dumpList(args)})
 			res := next(svc, method, applyRewrites(id, pre, args, spec.InPlace))
-			e.events = append(e.events, []interface{}{"exit", id, e.dumpList(res)})
+			d := e.dumpList(res)
+			e.events = append(e.events, []interface{}{"exit", id, d})
+			if !e.extra && !e.inplace && len(e.retained) < 64 {
+				// keep the Results VALUE itself (as a memoising middleware would); it must still hold
+				// the same results after later invocations of the method
+				e.retained = append(e.retained, kept{res: res, dump: d})
+			}
 			return applyRewrites(id, post, res, spec.InPlace)
 		}
 	}, nil
@@ -601,6 +619,12 @@ func (e *exp) rpc(q *request) interface{} {
 	handler := func(service, method string, fctx frugal.FContext, args []interface{}) (interface{}, error) {
 		all := append([]interface{}{fctx}, args...)
 		e.events = append(e.events, []interface{}{"core", "handler", service + "." + method, e.dumpList(all)})
+		if e.extra {
+			if len(resTypes) == 2 {
+				return reflect.Zero(resTypes[0]).Interface(), nil
+			}
+			return nil, nil
+		}
 		return hret, herr
 	}
 	// server side: NewF<Svc>Processor(handler, pctor...) then AddMiddleware in order
@@ -688,7 +712,31 @@ func (e *exp) rpc(q *request) interface{} {
 			}
 		}))
 	}
-	return labdriver.Resp{"code": 0, "runs": runs, "wraps": wraps, "zero": zero, "nret": len(resTypes), "built": e.built}
+	// one more invocation of the same method with a different handler outcome, then look at the Results
+	// values the middleware kept: an invocation must not reach into the results of an earlier one
+	changed := 0
+	if len(e.retained) > 0 && q.Calls > 0 {
+		e.extra = true
+		e.guarded(func(out map[string]interface{}) {
+			name := q.Method
+			if q.Async {
+				name += "Async"
+			}
+			res := client.MethodByName(name).Call(in)
+			if q.Async {
+				reflect.Select([]reflect.SelectCase{{Dir: reflect.SelectRecv, Chan: res[len(res)-1]},
+					{Dir: reflect.SelectRecv, Chan: reflect.ValueOf(time.After(2 * time.Second))}})
+			}
+		})
+		e.extra = false
+		for _, k := range e.retained {
+			if !reflect.DeepEqual(e.dumpList(k.res), k.dump) {
+				changed++
+			}
+		}
+	}
+	return labdriver.Resp{"code": 0, "runs": runs, "wraps": wraps, "zero": zero, "nret": len(resTypes), "built": e.built,
+		"retained": len(e.retained), "retained_changed": changed}
 }
 
 // guarded runs one call; a panic ends the run with the events recorded so far
